@@ -834,6 +834,47 @@ def _pipeline(m, c, streamed):
     raise ValueError(kind)
 
 
+def _rechunk_file(m, c, tmpdir):
+    import os
+    bnp = m["bnp"]
+    fmt = c["fmt"]
+    text = "".join(_file_lines(fmt, c["L"]))
+    src = os.path.join(tmpdir, "in." + fmt)
+    out = os.path.join(tmpdir, "out." + fmt)
+    with open(src, "w") as f:
+        f.write(text)
+    st = bnp.open(src).read_chunks(min_chunk_size=c["minchunk"])      # lazily read chunks (the default)
+    h = c["helper"]
+    if h == "none":
+        chunks = list(st)
+    elif h == "chunk_lines":
+        chunks = list(m["chunk_lines"](st, c["n"]))
+    elif h == "chunk_entries":
+        chunks = list(m["chunk_entries"](st, c["n"]))
+    elif h == "concat":
+        chunks = [np.concatenate(list(st))]
+    elif h == "groupby":
+        chunks = [g for _, g in bnp.groupby(st, "chromosome")]
+    else:                                   # glue: a whole raw chunk to a slice of the next one, and the rest
+        raw = list(st)
+        chunks = []
+        for a, b in zip(raw[0::2], raw[1::2]):
+            k = (len(b) + 1) // 2
+            chunks += [np.concatenate([a, b[:k]]), b[k:]]
+        if len(raw) % 2:
+            chunks.append(raw[-1])
+    ids = [_file_ids(fmt, ch) for ch in chunks]
+    with bnp.open(out, "w") as f:
+        for ch in chunks:
+            f.write(ch)
+    with open(out) as f:
+        written = f.read()
+    per = len(text.splitlines()) // c["L"]
+    wl = written.splitlines()
+    return {"v": {"chunks": ids, "written": "same" if written == text else
+                  {"lines": len(wl), "first_lines_of_records": [x[:24] for x in wl[::per]][:40]}}}
+
+
 def impl(c):
     m = _mods()
     bnp = m["bnp"]
@@ -1002,46 +1043,8 @@ def impl(c):
             return {"v": _pipeline(m, c, True), "mem": _pipeline(m, c, False)}
         if op == "rechunk_file":
             import os, tempfile
-            if "tmpdir" not in _CACHE:
-                import atexit, shutil
-                _CACHE["tmpdir"] = tempfile.mkdtemp(prefix="c11files_")
-                atexit.register(shutil.rmtree, _CACHE["tmpdir"], True)
-            fmt = c["fmt"]
-            text = "".join(_file_lines(fmt, c["L"]))
-            src = os.path.join(_CACHE["tmpdir"], "in." + fmt)
-            out = os.path.join(_CACHE["tmpdir"], "out." + fmt)
-            with open(src, "w") as f:
-                f.write(text)
-            st = bnp.open(src).read_chunks(min_chunk_size=c["minchunk"])      # lazily read chunks (the default)
-            h = c["helper"]
-            if h == "none":
-                chunks = list(st)
-            elif h == "chunk_lines":
-                chunks = list(m["chunk_lines"](st, c["n"]))
-            elif h == "chunk_entries":
-                chunks = list(m["chunk_entries"](st, c["n"]))
-            elif h == "concat":
-                chunks = [np.concatenate(list(st))]
-            elif h == "groupby":
-                chunks = [g for _, g in bnp.groupby(st, "chromosome")]
-            else:                                   # glue: a whole raw chunk to a slice of the next one, and the rest
-                raw = list(st)
-                chunks = []
-                for a, b in zip(raw[0::2], raw[1::2]):
-                    k = (len(b) + 1) // 2
-                    chunks += [np.concatenate([a, b[:k]]), b[k:]]
-                if len(raw) % 2:
-                    chunks.append(raw[-1])
-            ids = [_file_ids(fmt, ch) for ch in chunks]
-            with bnp.open(out, "w") as f:
-                for ch in chunks:
-                    f.write(ch)
-            with open(out) as f:
-                written = f.read()
-            per = len(text.splitlines()) // c["L"]
-            wl = written.splitlines()
-            return {"v": {"chunks": ids, "written": "same" if written == text else
-                          {"lines": len(wl), "first_lines_of_records": [x[:24] for x in wl[::per]][:40]}}}
+            with tempfile.TemporaryDirectory(prefix="c11files_") as tmpdir:      # removed again with the case (workers do not run atexit)
+                return _rechunk_file(m, c, tmpdir)
     except Exception as e:  # noqa
         return _err(e)
     raise ValueError(op)
